@@ -360,6 +360,10 @@ def replay_file(prop, part, path, attempts=None):
     outdir = os.path.join(ROOT, '.work', 'replay-%d-%d' % (os.getpid(), int(time.time() * 1000) % 100000))
     env = dict(part.get('env', {}))
     env.update(VERIF_REPLAY=os.path.abspath(path), VERIF_PROP=prop, VERIF_TIER='quick')
+    try:
+        attempts = attempts or json.load(open(path)).get('replay_attempts')
+    except Exception:
+        pass
     if attempts:
         env['VERIF_REPLAY_ATTEMPTS'] = attempts
     rc, out = run_proc(binary, part.get('replay_test', 'TestReplay'), outdir, env, [], 300)
